@@ -2,6 +2,7 @@ import AcraModel.Censor.Chain
 import AcraModel.Censor.Session
 import AcraModel.Censor.Match
 import AcraModel.Censor.MatchGeneralise
+import AcraModel.Censor.MatchSound
 /-!
 # C05 — a statement rejected by the SQL firewall never reaches the database
 
@@ -308,6 +309,67 @@ theorem insertRows_parenSelect_counterexample :
     let ins : Tree := .node "Insert" [Match.lf "insert", .node "Comments" [], Match.lf "", Match.tName "t1", Match.lf "false",
       .node "Partitions" [], .node "Columns" [], .node "ParenSelect" [u], .node "OnDup" [], .node "Returning" []]
     wellTyped ins = true ∧ Match.acc ins = false ∧ matchT ins ins = false := by
+  decide
+
+/-! ### the converse direction -/
+
+/-- `match_sound_on_literals` ("a pattern without placeholders matches only statements equal to it up to what the
+comparators ignore"), proved in its local halves – for **every** comparator of the regenerated table and the two leaf
+comparators:
+
+1. a field-by-field comparator that returns `true` either ran through with *every* comparison passing and ends in
+   `return true`, or was stopped with `true` by one of exactly three kinds of step: the nil guard (both sides nil), a
+   whole-statement shortcut (`p` *is* `%%SELECT%%`/`%%UNION%%`/…), the `%%WHERE%%` escape (`isWherePattern(p.Where)`);
+2. `areEqualSQLVal` on a pattern that is neither `%%VALUE%%` nor `%%LIST_OF_VALUES%%` means same literal type and bytes;
+   `areEqualColIdent` on a pattern that is not `%%COLUMN%%` means the same name up to ASCII letter case.
+
+What the comparators do **not** look at (so a literal pattern also matches statements differing there): letter case of
+keywords/operators/identifiers (`strings.EqualFold`, `ColIdent.Equal`); table identifiers up to `CompliantName`
+(`compliant_name_counterexample`, known finding `pattern-table-compliant-name`); `SQLVal.CastType`, `Limit.Type`
+(`limit 1, 2` = `limit 2 offset 1`), `Insert.Default`, quoting flags of identifiers; a select list consisting of a lone `*`
+matches every select list (by design). On the pinned tree they also ignored RETURNING, `UPDATE … FROM` and `UNION` vs
+`UNION ALL` – an allow-rule bypass (`insert into t1 (a) values (%%VALUE%%)` matched `… returning (select password from
+users limit 1)`), repaired (`fix:` 46; `returning_is_compared`).
+**Missing** for the closed theorem: the induction over well-typed trees that chains (1) and (2) into a structural
+relation between `p` and `t` (it needs the converse of `cstep_good` for every step shape and the list of fields each
+comparator reads as a regenerated fact). -/
+theorem match_sound_on_literals_partial (fuel : Nat) :
+    (∀ fn fin steps q p, Match.specialFns.contains fn = false → Match.compiled.lookup fn = some (fin, steps) →
+      Match.evalFn (fuel + 1) fn q p = true →
+      steps.any (Match.cstepRetTrue (Match.evalFn fuel) (Match.escEval (Match.evalFn fuel)) q p) = true
+      ∨ (fin = true ∧ steps.all (Match.cstepPasses (Match.evalFn fuel) (Match.escEval (Match.evalFn fuel)) q p) = true))
+    ∧ (∀ call esc q p i a, (Match.atomAt call esc q p i a).isRetTrue = true →
+        (a = .nilboth ∧ q.isNil = true ∧ p.isNil = true)
+        ∨ (∃ o ph x c, a = .shortcut o ph ∧ Match.selO i q p o = some x ∧ Match.placeholderStmt ph = some c ∧ (x == c) = true)
+        ∨ (∃ e ea c a' b x, a = .cmpEsc e ea c a' b ∧ Match.selO i q p ea = some x ∧ esc e x = true))
+    ∧ (∀ q p, Match.evalFn (fuel + 1) "areEqualSQLVal" q p = true → Match.isValuePattern p = false →
+        Match.isListOfValuesPattern p = false →
+        (Match.fld q "Type").leafBytes = (Match.fld p "Type").leafBytes ∧ (Match.fld q "Val").leafBytes = (Match.fld p "Val").leafBytes)
+    ∧ (∀ q p, Match.evalFn (fuel + 1) "areEqualColIdent" q p = true → Match.isColumnPattern p = false →
+        lowerBytes (Match.fld q "val").leafBytes = lowerBytes (Match.fld p "val").leafBytes) :=
+  ⟨fun fn fin steps q p hs hl h => by
+      rw [Match.evalFn_compiled fuel fn q p fin steps hs hl] at h
+      exact Match.runC_true_inv _ _ q p fin steps h,
+   fun call esc q p i a h => Match.atom_retTrue_kinds call esc q p i a h,
+   fun q p h hv hl => Match.sqlVal_sound fuel q p h hv hl,
+   fun q p h hc => Match.colIdent_sound fuel q p h hc⟩
+
+/-- A literal pattern matches a statement on a *different table*: table identifiers are compared after
+`CompliantName()` (every character that is not a letter, `_`, `@` or a non-leading digit becomes `_`), so the pattern
+`select a from a_b` matches ``select a from `a-b` `` – known finding `pattern-table-compliant-name`, replayed on the real
+matcher by the regression corpus. -/
+theorem compliant_name_counterexample :
+    let stmt (tbl : String) := Match.selectOf [Match.aliased (Match.cName "a")] [Match.aliasedTable tbl] Tree.nil
+    matchT (stmt "a_b") (stmt "a-b") = true ∧ (stmt "a_b" == stmt "a-b") = false := by
+  decide
+
+/-- After the repair the RETURNING clause is compared: an INSERT pattern without RETURNING no longer matches the same
+INSERT with one (on the pinned tree it did – `Insert.Returning` was read by no comparator). -/
+theorem returning_is_compared :
+    let ins (ret : List Tree) : Tree := .node "Insert" [Match.lf "insert", .node "Comments" [], Match.lf "", Match.tName "t1", Match.lf "false",
+      .node "Partitions" [], .node "Columns" [Match.cIdent "a"],
+      .node "Values" [.node "ValTuple" [Match.sqlVal "1" (strBytes "1")]], .node "OnDup" [], .node "Returning" ret]
+    matchT (ins []) (ins [Match.aliased (Match.cName "a")]) = false ∧ matchT (ins []) (ins []) = true := by
   decide
 
 /-! ## sessions -/
